@@ -264,7 +264,7 @@ var c08StreamKinds = []string{
 	"HEADERS+ES+EH", "HEADERS+EH", "HEADERS+ES", "HEADERS",
 	"CONTINUATION+EH", "CONTINUATION",
 	"DATA", "DATA+ES", "DATA0+ES",
-	"TRAILERS+ES+EH", "TRAILERS+EH", "TRAILERS+ES",
+	"TRAILERS+ES+EH", "TRAILERS+EH", "TRAILERS+ES", "TRAILERS",
 	"RST_STREAM",
 	"WINDOW_UPDATE(1)", "WINDOW_UPDATE(0)", "WINDOW_UPDATE(max)", "WINDOW_UPDATE(over)",
 	"PRIORITY(other)", "PRIORITY(self)",
